@@ -6,9 +6,10 @@
      - None is returned iff no pair has the structure;
    and the link to the network semantics: what find_diag_axes / find_columns
    return is exactly the side condition of diag_reduce_sound / isel_sound. *)
-From Coq Require Import ZArith Arith List Bool Lia PeanoNat.
+From Coq Require Import ZArith QArith Arith List Bool Lia PeanoNat.
 From QV Require Import Base.Sums Base.TN Base.TNExec C04.Model C04.Rules.
 Import ListNotations.
+Close Scope Q_scope.
 
 Section FinderSpecs.
   Variable A : Type.
@@ -404,3 +405,16 @@ Section Link.
     apply (isel_sound G g0 g1 gadd gmul gsub gopp G_ring (lookup dims)) with (t := arr_tensor inds shape data); assumption.
   Qed.
 End Link.
+
+(* ---- explicit tolerance predicate ------------------------------------------------------------- *)
+Lemma nzQ_false atol x : nzQ atol x = false <-> (fst x * fst x + snd x * snd x <= atol * atol)%Q.
+Proof. unfold nzQ. rewrite negb_false_iff. apply Qle_bool_iff. Qed.
+
+(* find_columns with tolerance atol: every entry off the returned column has |x|^2 <= atol^2 (never merely <= atol) *)
+Theorem find_columns_tolerance atol shape data ax c : find_columns_Q atol shape data = Some (ax, c) ->
+  forall k, (k < Model.size shape)%nat -> nth ax (Model.unravel shape k) 0%nat <> c ->
+  let x := nth k data (0, 0)%Q in (fst x * fst x + snd x * snd x <= atol * atol)%Q.
+Proof.
+  intros H k Hk Hne. apply find_columns_some in H. destruct H as [[_ [_ Hz]] _]. cbn [fst snd] in Hz.
+  apply nzQ_false. apply (Hz k Hk Hne).
+Qed.
